@@ -23,7 +23,7 @@ func init() {
 	register(core.Plan{
 		Property: "C15", Level: "exploration",
 		Parts: func(tier string) []core.Part {
-			return []core.Part{{Name: "sessions", Bin: "plain", Batches: 1, TimeoutS: 1800}}
+			return []core.Part{{Name: "sessions", Bin: "plain", Batches: 1, TimeoutS: 600}}
 		},
 		Assumptions: []string{
 			"hook attachment.VerifServeConn runs the real per-connection loop on one end of a net.Pipe: every client write is exactly one server read, which gives exact control of the read partition; a loopback-TCP variant runs the same sessions through the kernel",
@@ -50,7 +50,7 @@ type attFile struct {
 	Type    byte     `json:"file_type"`
 	Chunks  [][2]int `json:"chunks_in_send_order"` // offset, length (before the first 0x1212)
 	Resend  [][2]int `json:"resent_after_first_1212,omitempty"`
-	Dense   bool     `json:"dense,omitempty"` // a large file whose content is materialised and sent completely (not a sparse giant)
+	Dense   bool     `json:"dense,omitempty"`                            // a large file whose content is materialised and sent completely (not a sparse giant)
 	PostDup bool     `json:"duplicate_chunk_after_completion,omitempty"` // default order only: a duplicate chunk and another 0x1212 after the file was confirmed complete
 }
 
